@@ -17,15 +17,15 @@ mv "$DEMO" "$DEMO.off"
 SUITE=$(go test -vet=off -count=1 ./... 2>&1 | grep -c "^FAIL")
 mv "$DEMO.off" "$DEMO"
 WITH=$(go test -vet=off -count=1 -run "^$TESTNAME\$" $PKG 2>&1 | tail -1)
-git stash push -q -- $SRC
+git diff > /tmp/collect_$ID.patch; git apply -R /tmp/collect_$ID.patch
 WITHOUT=$(go test -vet=off -count=1 -run "^$TESTNAME\$" $PKG 2>&1 | tail -1)
-git stash pop -q
+git apply /tmp/collect_$ID.patch; rm -f /tmp/collect_$ID.patch
 echo "suite_fail_lines=$SUITE | with change: $WITH | without: $WITHOUT"
 python3 - "$OUT" "$PROP" "$SRC" "$DEMO" "$TESTNAME" "$SUITE" "$WITH" "$WITHOUT" <<'PY'
 import json,sys
 out,prop,src,demo,test,suite,w,wo=sys.argv[1:9]
 json.dump({"property":prop,"files_changed":src.split(),"demo_test":demo,"demo_test_name":test,
  "confirmed":{"go_build":"ok","existing_suite_FAIL_lines_with_change":int(suite),"demo_with_change":w,"demo_without_change":wo},
- "needs_to_manifest":"","what_i_ran":"collect_seed.sh in the sub-agent's scratch worktree: go build ./...; go test -vet=off -count=1 ./... (demo moved aside); demo with the change; git stash the source change; demo again; git stash pop",
+ "needs_to_manifest":"","what_i_ran":"collect_seed.sh in the sub-agent's scratch worktree: go build ./...; go test -vet=off -count=1 ./... (demo moved aside); demo with the change; reverse-apply the source change; demo again; re-apply",
  "detected_by":[]},open(out+"/meta.json","w"),indent=1)
 PY
